@@ -67,7 +67,8 @@ uint32_t EthernetStatus::calculateObjectSize() const {
         sizeof(clockMode) +
         sizeof(pairs) +
         sizeof(hardwareChannel) +
-        sizeof(bitrate);
+        sizeof(bitrate) +
+        ((apiMajor >= 2) ? (sizeof(reservedEthernetStatus1) + sizeof(reservedEthernetStatus2)) : 0);
 }
 
 }
